@@ -197,15 +197,34 @@ def main():
             elif any(v == 2 for v in res.values()):
                 st[2] += 1
             else:
-                survivors.append((key, kind, desc))
+                survivors.append((key, kind, desc, r))
     print(f"{'function':62} mutants  killed  exit2  survived")
     tot = [0, 0, 0]
     for k, (n, kd, e2) in sorted(stats.items()):
         print(f"{k:62} {n:7} {kd:7} {e2:6} {n - kd - e2:9}")
         tot = [tot[0] + n, tot[1] + kd, tot[2] + e2]
     print(f"{'TOTAL':62} {tot[0]:7} {tot[1]:7} {tot[2]:6} {tot[0] - tot[1] - tot[2]:9}")
-    print("\nsurvivors:")
-    for key, kind, desc in sorted(survivors):
+    # a survivor of its own property's checks may still be reported by another property's check: run all 20 on those
+    ALL = [f"C{i:02d}" for i in range(1, 21)]
+    jobs2 = []
+    for key, kind, desc, r in survivors:
+        rel, qual = r[0], r[1]
+        for j in jobs:
+            if j[0] == rel and j[1] == qual and mutate(j[5], qual, j[3], j[4])[1] == desc:
+                jobs2.append((rel, qual, ALL, j[3], j[4], j[5]))
+                break
+    true_surv = []
+    with ThreadPoolExecutor(max_workers=8) as ex:
+        for r in ex.map(run, jobs2):
+            if r is None:
+                continue
+            rel, qual, kind, desc, res = r
+            fired = [c for c, v in res.items() if v]
+            (true_surv if not fired else []).append((f"{rel.split('/', 1)[1]}:{qual}", desc))
+            if fired:
+                print(f"  elsewhere {rel.split('/', 1)[1]}:{qual}: {desc} -> {' '.join(fired)}")
+    print(f"\nsurvivors of all 20 checks ({len(true_surv)}):")
+    for key, desc in sorted(true_surv):
         print(f"  {key}: {desc}")
 
 
